@@ -20,11 +20,12 @@ claim("C01", "proof",
       "Theorems (Properties_C01.v): both set_primitive implementations write enc(byte order, width, value) for every width; "
       "validator offsets are the SBE offsets (explicit honoured, else end of predecessor, constants take no space) and never "
       "overlap or leave the block, for every field list; blockLength >= content; composite members in order; a setter at any "
-      "path changes exactly the located member's bytes (frame) and reads back. The script-level statement (in-order setter "
-      "script = Wire.over_message image) is NOT proved; it is decided by correspondence: random accepted schemas are compiled "
-      "by /repo's sbeppc, the generated code runs random in-order encode scripts on random backgrounds and the final bytes must "
-      "equal the extracted reference encoder Wire.over_message and the runtime model.",
-      TB + " Partial: script-level theorem missing; C++ standards/compilers sampled (quick: g++ C++11/20).",
+      "path changes exactly the located member's bytes (frame) and reads back; and the property itself: for every table, "
+      "value tree and background, the in-order setter script run with the library's navigation yields exactly the reference "
+      "image Wire.over_message followed by the untouched rest of the background (C01_encode_script_produces_wire_image). "
+      "Correspondence: random accepted schemas are compiled by /repo's sbeppc, the generated code runs random in-order encode "
+      "scripts on random backgrounds and the final bytes must equal the extracted reference encoder and the runtime model.",
+      TB + " C++ standards/compilers sampled (quick: g++ C++11/20; thorough adds 14/17/23 and clang++).",
       "Coq proof (layout algebra, codec, frame) + differential correspondence against extracted reference encoder")
 claim("C02", "proof",
       "Theorems (Properties_C02.v): codec round trips for all widths/both byte orders; both get_primitive implementations "
@@ -146,6 +147,46 @@ claim("C10", "proof",
       "complete image => no handler; plus a hostile <data> length steering the next view past the end.",
       TB + " Partial: per-operation extents are tied by the sweep, not proved; container mutators are covered by C13/C14.",
       "Coq proof about the size-check guard + fault enumeration (truncation sweep under guard pages)")
+
+claim("C07", "proof",
+      "PARTIAL by nature (no model can express 'g++ accepts this text'). 11 theorems (Properties_C07.v): rendered integer "
+      "literals denote the parsed value and are non-narrowing for every primitive type and in-range value (incl. INT64_MIN), "
+      "the 33 built-in min/max/null table entries denote the SBE defaults, float literal kind, string/char embedding "
+      "(which characters survive, escaping), mangled type and message names pairwise distinct for every iteration order, "
+      "group names never equal base-class members, size_bytes parameter names distinct. Correspondence: the real sbeppc "
+      "functions (string_to_number, to_integer_literal, numeric_literal_to_value, make_string_constant, names_generator) "
+      "are called directly and compared with the model; random schemas incl. name-clash patterns over a fixed identifier "
+      "pool are compiled header-by-header (-fsyntax-only) plus a generated touch-everything TU under g++ C++11/20 and "
+      "clang++ C++17 (all 5 standards x 2 compilers in thorough).",
+      TB + " Include-list closure and detail::schema tag namespaces are sampled only. One open finding (header values that "
+      "do not fit the header member type).",
+      "Coq proof (literal semantics, name mangling) + compile sampling of generated headers")
+claim("C08", "proof",
+      "Theorems (Properties_C08.v) over Rules.v (declarative per-entity rules) and Validate.v (transcription of the "
+      "validator's checks in visiting order): validate accepts iff rules_ok, for every schema and every modelled rule class "
+      "(offset, blockLength, value representability, choice index, unknown/wrong-kind/cyclic references, multi-byte arrays, "
+      "level headers, names, duplicates, ...); a rejected schema has a rule class; accepted schemas have members in order, "
+      "pairwise disjoint, inside their composite/block. Correspondence: one rule-breaking edit at every applicable position "
+      "of generated valid schemas plus boundary-valid neighbours: exit status, diagnostic class, location prefix, no output "
+      "files, compared with the model's verdict and the mutation's own oracle.",
+      TB + " Not modelled: pugixml, attribute text parsing, float range acceptance (oracle bit), unordered_map iteration order.",
+      "Coq proof (validator = declarative rules) + structured mutation stream against sbeppc")
+claim("C09", "proof",
+      "PARTIAL (bytes -> DOM and the file system are outside the model). Theorems (Properties_C09.v) over Pipeline.v: "
+      "validation never crashes and terminates; validation success implies every generation-time lookup (std::get, map::at, "
+      "optional dereference, context asserts) succeeds; include loading terminates and reports cycles; constant length "
+      "computation is total; a rejected schema reaches no generation step. Correspondence: structure-garbling mutations, raw "
+      "garbage, truncated XML, include graphs and argv combinations against an ASan+UBSan+assert build of /repo's sbeppc: "
+      "no signal, no sanitizer report, no hang, diagnostic iff non-zero status, empty output directory on rejection.",
+      TB + " One open finding (stack overflow on ~10 000 nested elements).",
+      "Coq proof (pipeline totality model) + mutation fuzzing of a sanitized sbeppc")
+claim("C18", "proof",
+      "PARTIAL: 7 theorems (Properties_C18.v) for the DERIVED traits (offset trait = SBE offset, block_length trait, actual "
+      "presence rule, children tag lists in schema order, schema tags distinct, tag-kind predicates exclusive and total); "
+      "copy-through attributes (name, id, description, versions, min/max/null) are decided by correspondence only: a "
+      "generated trait-dump TU prints every trait of every entity of random schemas and is compared line by line with the "
+      "model / AST expectation (15k trait lines in quick).",
+      TB, "Coq proof (derived traits) + differential trait dump")
 
 NOT_YET = {}
 ALL = ["C%02d" % i for i in range(1, 21)]
